@@ -291,7 +291,10 @@ func runCheck(repo, verifDir, prop, tier string) int {
 	}
 	cr := &checkRun{e: e, prop: prop, tier: tier, seed: seed, slice: map[string]bool{prop: true}, start: start,
 		tally: &Tally{BySolver: map[string]int{}}}
-	cr.safety = prop == "C14" || prop == "C17" // C17: genesis validation and initialisation must not panic either (the module panics on an init error)
+	// C17: genesis validation and initialisation must not panic either (the module panics on an init error);
+	// C11: coins already on the account must not block a transfer, so the sweep and the balance precondition must not panic
+	cr.safety = prop == "C14" || prop == "C17" || prop == "C11"
+	e.useTypeInv = cr.safety
 	if len(e.loadErrors) > 0 {
 		for _, le := range e.loadErrors {
 			fmt.Println("LOAD ERROR:", le)
@@ -352,6 +355,14 @@ func runCheck(repo, verifDir, prop, tier string) int {
 	} else {
 		cr.extraObl = append(cr.extraObl, &Obligation{Name: "globals#immutable", Kind: "scan", Status: "discharged", Solver: "ssa-scan", Clause: "no in-repo function stores to a package-level variable outside init"})
 	}
+	if cr.safety {
+		// object invariants used for panic freedom: allocation and field stores confined to the constructors
+		if bad, n := e.typeInvScan(); len(bad) > 0 {
+			cr.extraObl = append(cr.extraObl, &Obligation{Name: "typeinv#immutable", Kind: "scan", Status: "failed", Clause: "object invariants are not protected: " + strings.Join(bad, "; ")})
+		} else if n > 0 {
+			cr.extraObl = append(cr.extraObl, &Obligation{Name: "typeinv#immutable", Kind: "scan", Status: "discharged", Solver: "ssa-scan", Clause: fmt.Sprintf("%d component types with an object invariant: allocated in their constructors only, no field stored elsewhere, every constructor under a contract ensuring the invariant", n)})
+		}
+	}
 	runPass := func() {
 	done := map[string]bool{}
 	verify := func(t target) {
@@ -361,6 +372,14 @@ func runCheck(repo, verifDir, prop, tier string) int {
 		if cr.prop == "C17" && !(strings.Contains(t.fn.Name(), "InitGenesis") || strings.Contains(t.fn.Name(), "Validate") || strings.HasPrefix(t.fn.Name(), "SetPaused") || strings.HasPrefix(t.fn.Name(), "SetDispatched") || t.fn.Name() == "SetParams") {
 			// C17 claims panic freedom for validation and initialisation (the module panics on an init error);
 			// the export functions are proved functionally only
+			safety = false
+		}
+		if cr.prop == "C11" && !(t.fn.Name() == "clearOrbiterBalance" || t.fn.Name() == "BeforeTransferHook" || t.fn.Name() == "validateInitialConditions" ||
+			(t.fn.Name() == "HandlePacket" && strings.Contains(t.fn.String(), "forwarder.Forwarder"))) {
+			// C11 claims panic freedom only where the pre-existing balance is read (the whole receive path is C14's)
+			safety = false
+		}
+		if e.isTypeInvWriter(t.fn) {
 			safety = false
 		}
 		vc := e.verifyFunc(t.fn, t.ct, cr.slice, safety, t.extra)
